@@ -560,9 +560,9 @@ func writeEvidence(vd, prop, tier string, seed int, spec *PropertySpec, results 
 	}
 	cov := map[string]interface{}{
 		"explanation":                      spec.Explanation + " Decided by symbolic execution of the real SSA (go/ssa built from the current working tree of the repository) with z3 deciding every assertion on every feasible path; counterexamples are replayed natively before being reported.",
-		"evaluations":                      queries,
+		"evaluations":                      queries + trivial,
 		"distinct_nontrivial":              distinct + distinctPath,
-		"rule":                             "evaluations = SMT queries sent to z3 (branch feasibility + negated assertions). distinct_nontrivial = distinct (assertion label, path decision list) pairs established with the solver: (a) assertions whose negation z3 refuted under the path condition (distinct_refuted_by_solver) plus (b) assertions that folded to true on a path whose path condition is symbolic, i.e. they hold for every input of a region whose feasibility and boundaries the solver decided (distinct_on_solver_decided_paths). Assertions on paths without any symbolic decision are not counted.",
+		"rule":                             "evaluations = SMT queries sent to z3 (branch feasibility + negated assertions; field queries) + assertion evaluations that folded to a constant on their path (field assertions_trivially_true). distinct_nontrivial = distinct (assertion label, path decision list) pairs established with the solver: (a) assertions whose negation z3 refuted under the path condition (distinct_refuted_by_solver) plus (b) assertions that folded to true on a path whose path condition is symbolic, i.e. they hold for every input of a region whose feasibility and boundaries the solver decided (distinct_on_solver_decided_paths). Assertions on paths without any symbolic decision are not counted.",
 		"distinct_refuted_by_solver":       distinct,
 		"distinct_on_solver_decided_paths": distinctPath,
 		"samples":                          samples,
